@@ -1746,11 +1746,163 @@ pub mod gen {
 }
 
 mod stub {
+    //! alias chasing of the stub resolver: the real `Resolver` (CachingClient::inner_lookup, DepthTracker)
+    //! over one mocked upstream that answers from a table; default answer NXDOMAIN.
     use super::*;
-    pub fn exec(_line: &str, _t: &[&str], rec: &mut Recorder) {
-        rec.stat("skipped.unparsable-case");
+    use hickory_resolver::config::{NameServerConfig, ResolverConfig, ResolverOpts};
+    use hickory_resolver::Resolver;
+
+    const UPSTREAM: IpAddr = IpAddr::V4(Ipv4Addr::new(44, 9, 9, 9));
+
+    fn parse(t: &[&str]) -> Option<Case> {
+        if t.len() != 4 {
+            return None;
+        }
+        let names = parse_list(t[1], ',', parse_name)?;
+        let mut table = BTreeMap::new();
+        for (k, r) in parse_list(t[2], ';', |e| {
+            let (k, r) = e.split_once('=')?;
+            let (n, ty) = k.split_once(',')?;
+            Some(((0usize, n.parse::<usize>().ok()?, ty.parse::<u16>().ok()?), parse_resp(r)?))
+        })? {
+            table.insert(k, r);
+        }
+        let (n, ty) = t[3].split_once(',')?;
+        let c = Case {
+            rl: 0,
+            nl: 0,
+            roots: vec![UPSTREAM],
+            deny_srv: vec![],
+            allow_srv: vec![],
+            deny_ans: vec![],
+            allow_ans: vec![],
+            names,
+            groups: vec![Group { ips: vec![UPSTREAM], default: Resp { rcode: 3, aa: true, ..Default::default() } }],
+            table,
+            queries: vec![(n.parse().ok()?, ty.parse().ok()?)],
+        };
+        let nn = c.names.len();
+        let ok = c.table.iter().all(|((_, n, _), r)| {
+            *n < nn
+                && r.all().all(|x| {
+                    x.name < nn
+                        && match x.data {
+                            RD::N(y) | RD::C(y) => y < nn,
+                            _ => true,
+                        }
+                })
+        });
+        if !ok || c.queries[0].0 >= nn {
+            return None;
+        }
+        Some(c)
     }
-    pub fn gen(_r: &mut Rng) -> String {
-        String::new()
+
+    fn run_stub(case: Arc<Case>) -> Result<(bool, usize), String> {
+        let rt = tokio::runtime::Builder::new_current_thread().enable_all().build().map_err(|e| e.to_string())?;
+        rt.block_on(async move {
+            let log = Arc::new(Mutex::new(vec![]));
+            let net = MockNet { case: case.clone(), log: log.clone(), rt: TokioRuntimeProvider::default() };
+            let config = ResolverConfig::from_parts(None, vec![], vec![NameServerConfig::udp(UPSTREAM)]);
+            let mut opts = ResolverOpts::default();
+            opts.attempts = 0;
+            opts.ndots = 0;
+            let resolver = Resolver::builder_with_config(config, net).with_options(opts).build().map_err(|e| format!("build: {e}"))?;
+            let (n, t) = case.queries[0];
+            let fut = resolver.lookup(case.names[n].clone(), RecordType::from(t));
+            let res = tokio::time::timeout(Duration::from_secs(60), fut).await.map_err(|_| "hang".to_string())?;
+            let sends = log.lock().unwrap().iter().filter(|e| matches!(e, Event::Send(..))).count();
+            Ok((res.is_ok(), sends))
+        })
+    }
+
+    pub fn exec(line: &str, t: &[&str], rec: &mut Recorder) {
+        let Some(case) = parse(t) else {
+            rec.stat("skipped.unparsable-case");
+            return;
+        };
+        let case = Arc::new(case);
+        let (tx, rx) = std::sync::mpsc::channel();
+        let c2 = case.clone();
+        std::thread::spawn(move || {
+            let r = catch(|| run_stub(c2));
+            let _ = tx.send(match r {
+                Ok(r) => r,
+                Err(p) => Err(format!("panic {p}")),
+            });
+        });
+        let res = rx.recv_timeout(Duration::from_secs(120)).unwrap_or(Err("hang".into()));
+        rec.stat("op.stub");
+        match res {
+            Ok((ok, n)) => {
+                let idx = rec.case(line.to_string(), format!("{} n={n}", b(ok)));
+                rec.stat(&format!("stub.upstream-queries.{n}"));
+                rec.stat(if ok { "stub.answered" } else { "stub.failed" });
+                if n > 8 {
+                    rec.fail(idx, format!("stub resolver sent {n} upstream queries for one lookup (> MAX_QUERY_DEPTH = 8)"), "");
+                }
+                if n >= 2 {
+                    rec.nontrivial(idx);
+                }
+            }
+            Err(e) => {
+                let idx = rec.case(line.to_string(), e.clone());
+                rec.fail(idx, format!("stub lookup did not end with an answer or an error: {e}"), "");
+            }
+        }
+    }
+
+    /// alias chains of every length (shorter, equal to, longer than the limit), loops, chains packed into one
+    /// answer, data for the final name present or absent
+    pub fn gen(r: &mut Rng) -> String {
+        let mut names: Vec<Name> = vec![];
+        let k = r.range(0, 12) as usize;
+        let looped = r.chance(1, 5);
+        let nn = k + 1;
+        for i in 0..nn {
+            names.push(Name::from_ascii(format!("h{i}.example{}.test-zone.", i % 3)).unwrap());
+        }
+        let qt = *r.pick(&[1u16, 1, 1, 28, 16, 5, 255]);
+        let mut table: Vec<String> = vec![];
+        let data = |n: usize, qt: u16| -> String {
+            match qt {
+                28 => format!("{n}:300:Q{}", 0x2a00u128 << 112 | 7),
+                16 => format!("{n}:300:T7"),
+                _ => format!("{n}:300:A{}", u32::from(Ipv4Addr::new(44, 1, 1, 1))),
+            }
+        };
+        let mut i = 0;
+        while i < nn {
+            // how many hops this response carries in its answer section
+            let pack = if r.chance(1, 4) { r.range(2, 3) as usize } else { 1 };
+            let mut ans: Vec<String> = vec![];
+            let mut j = i;
+            while j < i + pack && j < nn {
+                let last = j + 1 == nn;
+                if last && !looped {
+                    if r.chance(4, 5) {
+                        ans.push(data(j, if qt == 5 || qt == 255 { 1 } else { qt }));
+                    }
+                } else {
+                    let target = if last { r.below(nn as u64) as usize } else { j + 1 };
+                    ans.push(format!("{j}:300:C{target}"));
+                    // sometimes the target's data rides along
+                    if r.chance(1, 6) {
+                        ans.push(data(target, qt));
+                    }
+                }
+                j += 1;
+            }
+            let resp = format!("0/1/{}/-/-", if ans.is_empty() { "-".to_string() } else { ans.join("+") });
+            if !ans.is_empty() {
+                table.push(format!("{i},{qt}={resp}"));
+            }
+            i += 1;
+        }
+        format!(
+            "stub {} {} 0,{qt}",
+            list_tok(&names, ",", name_tok),
+            if table.is_empty() { "-".to_string() } else { table.join(";") }
+        )
     }
 }
